@@ -1,5 +1,10 @@
 (* C01  Evaluation equals the denotational semantics of the gate network.
    Statements only; proofs live in Proofs/. *)
+(* the evaluation entry points (evaluate_full_circuit, evaluate_circuit, evaluate_circuit_outputs, evaluate,
+   evaluate_at, get_truth_table) and top_sort are regenerated from the source by translator T10 and proved equal to the
+   model these theorems are about (Properties/C02.v C02_algorithms_regenerated): keep those proofs in this
+   property's cone *)
+Require Cirbo.Proofs.CircuitAlgosGen Cirbo.Proofs.CircuitAlgosGen2 Cirbo.Proofs.CircuitAlgosGen3 Cirbo.Proofs.CircuitAlgosGenSum.
 Require Import Cirbo.Model.Base Cirbo.Model.Gate Cirbo.Model.Den Cirbo.Model.Circuit Cirbo.Model.Eval Cirbo.Model.Sem.
 Require Import Cirbo.Generated.GateTypes.
 Require Import Cirbo.Model.WF.
